@@ -1,13 +1,17 @@
 #!/bin/bash
-# usage: tools/try_mutant.sh <patch.diff> <property id> [tier]   — apply to /repo, run the check, always revert
+# usage: tools/try_mutant.sh <patch.diff> <property id> [tier]   — apply to /repo (3-way if needed), run the check, always revert
 set -u
 patch="$1"; id="$2"; tier="${3:-quick}"
 cd /repo || exit 2
-if ! git apply --check "$patch" 2>/dev/null; then echo "PATCH DOES NOT APPLY: $patch"; exit 3; fi
-git apply "$patch"
+if git apply --check "$patch" 2>/dev/null; then git apply "$patch"
+elif git apply --3way "$patch" >/dev/null 2>&1 && ! git diff --name-only --diff-filter=U | grep -q .; then echo "(applied with 3-way merge)"
+else git reset -q --hard HEAD; echo "PATCH DOES NOT APPLY: $patch"; exit 3; fi
+export GOFLAGS=-mod=mod GOPROXY=off GOSUMDB=off GOTOOLCHAIN=local
+if ! go build ./... 2>/dev/null; then echo "PATCHED TREE DOES NOT COMPILE"; git reset -q --hard HEAD; exit 4; fi
+git diff HEAD > /tmp/last_mutant_rebased.diff
 cd /verif
 ./check "$id" --tier "$tier" 2>&1 | grep -E "VIOLATION|KNOWN-FINDING|\[check\] C|violation kinds|Error|error" | head -8
 rc=${PIPESTATUS[0]}
-git -C /repo checkout -- . 
+git -C /repo reset -q --hard HEAD
 git -C /repo status --short | head -3
 echo "exit=$rc"
